@@ -524,7 +524,7 @@ func runAcceptedRefusals(r *rep.Report) {
 		so := &config.ServerOptions{}
 		so.SetAllowEIO3(false)
 		w := rig.NewWorld(rig.Options{Server: so})
-		defer w.Shutdown()
+		defer w.Finish()
 		_, err := w.Connect(rig.ClientCfg{Rev: 3, Transport: "websocket"})
 		rig.Wait()
 		r.Case("accepted-refusal/ws/eio3", true)
